@@ -444,7 +444,9 @@ func H_C10_rangerResidue() {
 	run(set, "/first.jet", 3)
 	got := run(set, "/second.jet", n2)
 	vfReach("compared")
-	vfNote(got)
+	if kind != 0 || n2 <= 1 {
+		vfNote(got) // (the order of a map with several entries is not fixed: not recorded)
+	}
 	ref := "empty"
 	if kind != 0 && n2 > 0 { // (map order is not fixed: the map case is compared with the fresh Set only when it has at most one entry)
 		ref = ""
